@@ -1,7 +1,7 @@
 """C16 — issued certificates (new_cert and wrappers). DESIGN §4 C16."""
 import ast
 
-from .common import ctx, returns, calls_in_ctx, site, srcs_text, full_text
+from .common import ctx, returns, calls_in_ctx, site, srcs_text, full_text, bound_args, call_arg
 from ..flow import callee_attr
 from ..linexpr import lin, show, NotLinear
 from ..loader import AnalysisError, norm, NOVALUE
@@ -64,7 +64,7 @@ def run(R):
     st = attr_stores.get('cert_val.meta_info', [])
     okm = False
     if len(st) == 1 and isinstance(st[0][1], ast.Call):
-        kw = {k.arg: k.value for k in st[0][1].keywords}
+        kw = bound_args(P, nc, st[0][1])
         okm = 'content_type' in kw and ast.unparse(kw['content_type']) == 'ContentType.KEY'
     chk('C16.PRV.1', 'content type KEY', okm, st[0][0].ast if st else nc.f.node, 'the certificate content type is not KEY')
     for field, param in (('not_before', 'start_time'), ('not_after', 'end_time')):
@@ -95,7 +95,7 @@ def run(R):
     chk('C16.PRV.1', 'signer argument signs', len(sets) == 1 and [ast.unparse(a) for a in sets[0].args] == ['markers', 'signer'],
         sets[0] if sets else nc.f.node, 'the certificate is not signed with the signer argument')
     encs = [c for (n, c) in calls_in_ctx(nc, attr='encode') if ast.unparse(c.func.value) == 'cert_val']
-    chk('C16.PRV.1', 'encode with the same markers', len(encs) == 1 and any(k.arg == 'markers' and ast.unparse(k.value) == 'markers' for k in encs[0].keywords),
+    chk('C16.PRV.1', 'encode with the same markers', len(encs) == 1 and ast.unparse(call_arg(P, nc, encs[0], 'markers', ast.Constant(None))) == 'markers',
         encs[0] if encs else nc.f.node, 'the certificate value is not encoded with the markers that carry the signer')
     # ------------------------------------------------------------------ SIZ.1
     R.ob('C16.SIZ.1', 'new_cert: outer TLV assembled exactly: buffer = TL(DATA) + TL(n) + n, type at 0, length at TL(DATA), value after, '
